@@ -2,6 +2,7 @@
 
     valid request --serialise--> HTTP/1.1 wire bytes + field map
                   --corrupt----> 1..3 faults, positions biased by field (all draws from the plan Tape)
+                  [--reframe---> corruption at the source: Content-Length recomputed by the sender]
                   --frontend---> what a tolerant real server hands to the application
                                  (WSGI environ / ASGI scope + body messages), or Rejected
 
